@@ -745,6 +745,9 @@ def _judge(case, obs, sel):
     for k, vals in sorted(mk_contrib.items()):
         if not (driver in LIVE_DRIVERS or show_all or (not show and not case.get("fail_only") and k != "none")):
             continue
+        if k in SECTION_NAMES:
+            continue                         # a key that collides with a heading of the response: not judged (the
+                                             # statement does not name metadata_key responses, the collision is the rule author's)
         if not any(_same(resp.get(k), v) for v in vals):
             out.append(("metadata_key:value", {k: "one of %s" % vals}, {k: resp.get(k)},
                         feats_of("metadata_key", key_is_section_name=k in SECTION_NAMES)))
@@ -1030,6 +1033,9 @@ def small_cases(tier):
                 for second in ([[bx, "p"], [by, "tl"]], [None, [by, "tl"]]):
                     if history == "same-broker" and second[0] is None:
                         continue             # a new evaluator does not report what only the old graph contained
+                    if history == "same-evaluator" and second[0] is not None:
+                        continue             # an evaluator accumulates by design: re-evaluating the SAME rule on one
+                                             # evaluator object is outside the statement (its quantifier has no histories)
                     for d in ("single-serial", "insights-serial", "json", "yaml"):
                         c = {"part": "H", "history": history, "before": {"rules": [[bx, "p"]]}, "rules": second, "driver": d}
                         if d not in LIVE_DRIVERS:
